@@ -148,6 +148,12 @@ func BuildCatalogue() *Catalogue {
 			c.Skipped["fn/"+key] = "parameter type cannot be synthesised"
 			continue
 		}
+		if f.Fn.Type().NumIn() == 0 && !strings.HasPrefix(f.Name, "New") {
+			// e.g. a statistics or version getter: not an operation on caller-owned values;
+			// its result may legitimately depend on what the process did before
+			c.Skipped["fn/"+key] = "no parameters and not a constructor: not one of the call kinds C19 lists"
+			continue
+		}
 		add("fn", key)
 	}
 	for i := range RegTypes {
